@@ -2,13 +2,15 @@ import SunriseVerif.Model.Dec34
 import SunriseVerif.Gen.KernelsShare
 /-! C10 kernel statements as decidable predicates over the kernels regenerated from x/shareclass/types/types.go
     (core-only).  Proved for all arguments in Props/C10.lean where marked (P); the others (T) are rounding-direction
-    statements in the realistic magnitude range (< 10^30) that are evaluated on seeded operands by the check
+    statements in the realistic magnitude range (< 10^16, ten times the supply cap) that are evaluated on seeded operands by the check
     (`P C10.<name> …`) — tested, not proved (design/C10.md).  Decimal arguments are passed as coefficient and a
     small exponent `-(k % 60)`. -/
 namespace Sunrise.C10
 open Sunrise Sunrise.Gen.KernelsShare
 
-def B30 : Int := 1000000000000000000000000000000
+/-- 10^16: ten times the supply cap (app/mint/mint.go: 10^9 RISE = 10^15 urise); below it share·amount < 10^32 and the
+    two half-up roundings to 34 digits cannot carry a conversion past the next integer -/
+def B30 : Int := 10000000000000000
 
 def mk (c : Int) (k : Nat) : D34 := ⟨c, -((k % 60 : Nat) : Int)⟩
 
